@@ -344,8 +344,8 @@ fn check(plan: &Plan, out: &RunOut) -> CheckOut {
         let visits: Vec<u64> = w
             .history
             .iter()
-            .filter(|r| r.task.map(|t| w.tasks[t].name == "stats-reporting").unwrap_or(false))
-            .filter(|r| matches!(r.ev, dsim::Ev::Sleep { ns: 1_000_000_000 }))
+            .filter(|r| r.task.map(|t| w.procs[w.tasks[t].proc].sut).unwrap_or(false))
+            .filter(|r| matches!(r.ev, dsim::Ev::Sleep { .. }))
             .map(|r| r.t)
             .collect();
         let longest_absence = visits.windows(2).map(|p| p[1] - p[0]).max().unwrap_or(0);
